@@ -400,7 +400,6 @@ Qed.
 End Batch.
 
 (* ------------------------------------------------------------------ k = 1 is the model of Selection.v *)
-Definition kres_opt (r : kres) : option state := match r with KDone st => Some st | _ => None end.
 
 Lemma step_cond_top st pool g :
   JK st -> PI st pool -> finished st = false ->
